@@ -5,7 +5,7 @@ usage: benigneval.py --intake <worktree> <group>   (copies refactor_*.diff)   | 
 import concurrent.futures, glob, json, os, shutil, subprocess, sys, tempfile
 
 VERIF = "/verif"
-PROPS = [f"C{i:02d}" for i in range(1, 19)]
+PROPS = os.environ.get("BENIGN_PROPS", "").split() or [f"C{i:02d}" for i in range(1, 19)]
 
 
 def run_one(bid):
@@ -33,7 +33,7 @@ def run_one(bid):
             results[p] = {"exit": r.returncode, "report": [l[:500].replace(wt + "/", "") for l in lines[:4]]}
         meta = {"id": bid, "tests_rc": t.returncode, "checks": results,
                 "alarms": [p for p, x in results.items() if x["exit"] == 1], "undecided": [p for p, x in results.items() if x["exit"] == 2]}
-        json.dump(meta, open(os.path.join(d, "meta.json"), "w"), indent=1)
+        json.dump(meta, open(os.path.join(d, "meta.json" if len(PROPS) == 18 else "meta_partial.json"), "w"), indent=1)
         return bid, meta["alarms"], meta["undecided"]
     finally:
         subprocess.run(["git", "-C", "/repo", "worktree", "remove", "--force", os.path.join(tmp, "wt")], capture_output=True)
@@ -54,7 +54,7 @@ def main():
             ids.append(bid)
         args = ids
     ids = args or sorted(os.listdir(os.path.join(VERIF, "benign")))
-    with concurrent.futures.ThreadPoolExecutor(max_workers=6) as ex:
+    with concurrent.futures.ThreadPoolExecutor(max_workers=int(os.environ.get('BENIGN_J', '6'))) as ex:
         for bid, alarms, undec in ex.map(run_one, ids):
             print(f"{bid:12} alarms={alarms} undecided={undec}", flush=True)
 
